@@ -1,6 +1,6 @@
 """C04 — join: waits for all children, each output at its own position, zero inputs resolve at once."""
 from .. import families
-from . import joinlike, flow, c03
+from . import joinlike, flow, c03, c01
 
 PROPERTY = "C04"
 LEVEL = "other"
@@ -22,6 +22,7 @@ ASSUMPTIONS = [
     "MaybeUninit / mem::swap / array iteration behave per core docs",
 ]
 RULES = {
+    "C04.LIVE": "premises from the wake protocol, re-checked here for this family: task waker registered first, child polled with its own sub-waker (or the caller's context), no readiness lock across a child poll, a cleared bit is followed by a poll, re-arm after an item, readiness primitives / Wake::wake forward correctly",
     "C04.POS": "child's Ready payload is written exactly once, to the slot of the child's own position; result container is positional",
     "C04.CNT": "counter: correct initial value, +-1 exactly once per child completion and nowhere else; Ready only under the completion test; test evaluated after any completion before Pending",
     "C04.ONCE": "premise of the counter argument: a child is polled only while its slot says Pending and is marked Ready in the poll in which it resolves (so it is counted exactly once)",
@@ -37,6 +38,7 @@ def run(ctx):
         ctx.current_config = cfg
         M = ctx.model(cfg)
         units = families.subwaker_units(M, ("join",), groups=False)
+        c01.live_premises(ctx, M, units, "C04.LIVE")
         for u in units:
             joinlike.rule_pos(ctx, M, u, "C04.POS")
             joinlike.rule_result(ctx, M, u, "C04.POS")
